@@ -371,6 +371,9 @@ pub enum LogMutation {
 	ZeroLen { file_sel: u32 },
 	SubHeader { file_sel: u32, len: u8 },
 	Stale { which: u32 },
+	/// Structure-aware: overwrite one header field of one log entry (table id, slot / page index,
+	/// page mask, size field of a value entry, record id, checksum) with an extreme or random value.
+	Field { file_sel: u32, entry_sel: u32, val_sel: u32, seed: u64 },
 }
 
 #[derive(Clone, Debug, PartialEq)]
@@ -486,6 +489,7 @@ fn mut_json(m: &LogMutation) -> J {
 		LogMutation::ZeroLen { file_sel } => json!(["zerolen", file_sel]),
 		LogMutation::SubHeader { file_sel, len } => json!(["subheader", file_sel, len]),
 		LogMutation::Stale { which } => json!(["stale", which]),
+		LogMutation::Field { file_sel, entry_sel, val_sel, seed } => json!(["field", file_sel, entry_sel, val_sel, seed.to_string()]),
 	}
 }
 
@@ -508,6 +512,7 @@ fn mut_from_json(j: &J) -> LogMutation {
 		"zerolen" => LogMutation::ZeroLen { file_sel: u(1) },
 		"subheader" => LogMutation::SubHeader { file_sel: u(1), len: u(2) as u8 },
 		"stale" => LogMutation::Stale { which: u(1) },
+		"field" => LogMutation::Field { file_sel: u(1), entry_sel: u(2), val_sel: u(3), seed: j[4].as_str().unwrap().parse().unwrap() },
 		x => panic!("mutation {x}"),
 	}
 }
